@@ -7,6 +7,10 @@ git -C $W checkout -q -f --detach main && git -C $W clean -fdq
 demo=$(ls $S/demo_test.go 2>/dev/null || ls $S/demo/main.go 2>/dev/null)
 pkgdir=$W/v2
 head -4 $demo | grep -q '/lib/' && pkgdir=$W/lib
+place=$(head -3 $demo | grep -o 'place in [./a-z0-9]*' | head -1 | awk '{print $3}')
+case "$place" in
+  v2/|v2) pkgdir=$W/v2;; lib/|lib) pkgdir=$W/lib;; v2/jd/|v2/jd) pkgdir=$W/v2/jd;; ./|.) pkgdir=$W;;
+esac
 grep -q '^package main' $demo && pkgdir=$W
 if grep -q 'v2/jd' $S/notes.md 2>/dev/null && grep -q '^package main' $demo; then pkgdir=$W/v2/jd; fi
 run_demo() { cp $demo $pkgdir/zz_seed_demo_test.go; (cd $pkgdir && go test -mod=mod -vet=off -count=1 . 2>&1 | tail -3); rm -f $pkgdir/zz_seed_demo_test.go; }
